@@ -7,6 +7,11 @@ pub static CUR_REGION: AtomicUsize = AtomicUsize::new(0);
 pub static CUR_JOB: AtomicUsize = AtomicUsize::new(0);
 pub static IN_POOL: AtomicUsize = AtomicUsize::new(0); // 0 = not inside install, else pool id
 static NEXT_POOL: AtomicUsize = AtomicUsize::new(1);
+/// When set by a harness, the jobs of a `for_each` / `join` region are started in reverse order
+/// (the contract allows any order; harnesses make the choice a solver variable).
+pub static MODEL_REVERSE: std::sync::atomic::AtomicBool = std::sync::atomic::AtomicBool::new(false);
+/// Number of `install` calls, `join` regions and `for_each` regions opened so far.
+pub static N_INSTALL: AtomicUsize = AtomicUsize::new(0);
 
 pub fn model_position() -> (usize, usize, usize) { (CUR_REGION.load(SeqCst), CUR_JOB.load(SeqCst), IN_POOL.load(SeqCst)) }
 
@@ -37,6 +42,7 @@ pub struct ThreadPool { pub id: usize, pub explicit_threads: Option<usize> }
 impl ThreadPool {
     pub fn install<OP, R>(&self, op: OP) -> R where OP: FnOnce() -> R + Send, R: Send {
         let prev = IN_POOL.load(SeqCst);
+        N_INSTALL.fetch_add(1, SeqCst);
         IN_POOL.store(self.id, SeqCst);
         let r = op();
         IN_POOL.store(prev, SeqCst);
@@ -52,9 +58,15 @@ impl ThreadPool {
 pub fn join<A, B, RA, RB>(a: A, b: B) -> (RA, RB)
 where A: FnOnce() -> RA + Send, B: FnOnce() -> RB + Send, RA: Send, RB: Send {
     let region = NEXT_REGION.fetch_add(1, SeqCst);
-    let ra = with_job(region, 0, a);
-    let rb = with_job(region, 1, b);
-    (ra, rb)
+    if MODEL_REVERSE.load(SeqCst) {
+        let rb = with_job(region, 1, b);
+        let ra = with_job(region, 0, a);
+        (ra, rb)
+    } else {
+        let ra = with_job(region, 0, a);
+        let rb = with_job(region, 1, b);
+        (ra, rb)
+    }
 }
 pub mod iter {
     pub struct ParIterMut<'data, T: Send> { pub(crate) slice: &'data mut [T] }
@@ -66,8 +78,13 @@ pub mod iter {
         type Item = &'data mut T;
         fn for_each<OP>(self, op: OP) where OP: Fn(&'data mut T) + Sync + Send {
             let region = crate::NEXT_REGION.fetch_add(1, std::sync::atomic::Ordering::SeqCst);
-            let mut job = 0;
-            for x in self.slice.iter_mut() { crate::with_job(region, job, || op(x)); job += 1; }
+            if crate::MODEL_REVERSE.load(std::sync::atomic::Ordering::SeqCst) {
+                let mut job = self.slice.len();
+                for x in self.slice.iter_mut().rev() { job -= 1; crate::with_job(region, job, || op(x)); }
+            } else {
+                let mut job = 0;
+                for x in self.slice.iter_mut() { crate::with_job(region, job, || op(x)); job += 1; }
+            }
         }
     }
 }
